@@ -65,7 +65,7 @@ def oracle(case, ctx, label=True):
         if was is not None and (len(arg) != len(was) or any(x is not y for x, y in zip(arg, was))):
             return ctx.fail("inner/key-list-argument-modified", f"the {side_} list the caller passed was rewritten by the join: {was} -> {arg}")
     # the same join again after an in-place edit of one right key cell (a cached index would be stale now)
-    if case["nr"] >= 1 and case["nl"] >= 1:
+    if case["nr"] >= 1 and case["nl"] >= 1 and not case["R"].get("repeat"):      # (an edited column that feeds two key components: not modelled here)
         spec = case["R"]["specs"][0]
         if spec[0] in ("name", "own"):
             kc = [nm for nm, _ in case["R"]["cols"]].index(spec[1]) if spec[0] == "name" else spec[1]
